@@ -1,4 +1,5 @@
 import CstModel.Props.C16
+import CstModel.Proofs.SerRed
 open Cst.C16
 #print axioms attach_roundtrip
 #print axioms attach_underflow
@@ -7,3 +8,7 @@ open Cst.C16
 #print axioms deser_no_panic
 #print axioms run_dt
 #print axioms roundtrip
+#print axioms Cst.ser_pre
+#print axioms Cst.toDT_strip
+#print axioms Cst.ser_red
+#print axioms Cst.ser_de_roundtrip
